@@ -78,6 +78,33 @@ func c16Gen(g *core.Gen) {
 				}
 			}
 		}
+		_ = s
+	}
+	// slice sizes at and around powers of two up to 64 KiB (rolling-CRC tables are built per window length): a 5-slice
+	// file, insert / delete at a few positions, second file present
+	bigS := []int{2000, 4096, 16384, 32764, 32768, 32772, 65536}
+	if !g.Thorough() {
+		bigS = []int{2000, 32768, 65536}
+	}
+	for _, s := range bigS {
+		n := 4*s + s/2
+		cfg := scen.P2Config{Sizes: []int{n, s + 3}, Slice: s, Blocks: 7, Class: "uniq"}
+		for _, p := range []int{0, 1, s - 1, s, s + 1, 2*s + 7, n - 1, n} {
+			for _, L := range []int{1, 3, s - 1, s, s + 5} {
+				for _, ins := range []bool{true, false} {
+					if !ins && p+L > n {
+						continue
+					}
+					op := scen.Dmg{Op: "cut", F: 0, At: p, N: L}
+					if ins {
+						op = scen.Dmg{Op: "ins", F: 0, At: p, N: L}
+					}
+					g.Emit(&p2Case{Cfg: cfg, Dmg: []scen.Dmg{op}, G: 2, AutoPrune: true, Extra: []string{"c16"}})
+				}
+			}
+		}
+	}
+	for _, s := range ss {
 		// content of f under g's name
 		cfg := scen.P2Config{Sizes: []int{3*s + 1, 2 * s, 4*s - 1}, Slice: s, Blocks: 7, Class: "uniq"}
 		for f := 0; f < 3; f++ {
@@ -101,7 +128,7 @@ func init() {
 		ID:    "C16",
 		Level: "model_checking",
 		Rule: "full product: slice size {4,8,12,16 (quick), +20,32,48 (thorough)} x file length {3s,3s+1,4s-1,5s+s/2} x {insert,delete} x every position 0..len x every edit length 1..2s+1 x second file present/absent, " +
-			"plus every ordered pair (content of f under g's name: swap, overwrite, rename). Recovery files are deleted so that exactly as many blocks remain as slices the edit touches. " +
+			"plus every ordered pair (content of f under g's name: swap, overwrite, rename); plus slice sizes {2000, 32768, 65536} (thorough also 4096, 16384, 32764, 32772) x 8 edit positions x 5 edit lengths. Recovery files are deleted so that exactly as many blocks remain as slices the edit touches. " +
 			"Oracle: Verify usable == slices found by brute-force scan == edit geometry; Repair must succeed with exactly that many blocks (a found slice that consumed a block would make it fail). non-trivial = edit destroys >=1 and leaves >=1 slice",
 		Assumptions: []string{"content is high-entropy and zero-free so the occurrence set is overlap-free (self-checked per case by the brute-force scan)"},
 		NewCase:     func() interface{} { return &p2Case{} },
